@@ -22,10 +22,10 @@ INFO = {
                                'identity_steam': 300, 'tsat_inverse': 100, 'bounds_checked': 1000,
                                'classifiers_compared': 1000, 'ssf_ladders': 20, 'clausius_clapeyron': 50},
                   'nontrivial': 3000},
-        'thorough': {'counters': {'cross_liquid': 2400, 'cross_steam': 3200, 'cross_sat': 500, 'identity_liquid': 2000,
-                                  'identity_steam': 2000, 'tsat_inverse': 500, 'bounds_checked': 10000,
-                                  'classifiers_compared': 10000, 'ssf_ladders': 200, 'clausius_clapeyron': 300},
-                     'nontrivial': 20000},
+        'thorough': {'counters': {'cross_liquid': 14000, 'cross_steam': 18000, 'cross_sat': 2900, 'identity_liquid': 11000,
+                                  'identity_steam': 11000, 'tsat_inverse': 2900, 'bounds_checked': 30000,
+                                  'classifiers_compared': 58000, 'ssf_ladders': 1100, 'clausius_clapeyron': 1700},
+                     'nontrivial': 150000},
     },
     'watchdog_s': {'quick': 900, 'thorough': 3600},
     'assumptions': ['cross-formulation envelopes are frozen at about twice the largest difference observed between the two '
@@ -41,7 +41,7 @@ ENV = {'liq_d': 5e-3, 'steam_d': 1e-2, 'u_abs': 1200.0, 'u_rel': 6e-3, 'psat': 3
 
 
 def plan(tier, seed):
-    f = 2 if tier == 'quick' else 1
+    f = 2 if tier == 'quick' else 0.12
     return [{'part': 'cross', 'f': f}, {'part': 'identities', 'f': f}, {'part': 'bounds', 'f': f},
             {'part': 'classifiers', 'f': f}, {'part': 'ssf', 'f': f}]
 
@@ -107,7 +107,7 @@ def run_cross(ctx, spec):
             if ru > ENV['u_abs'] + ENV['u_rel'] * abs(u2):
                 ctx.violation('cross:steam-energy', 'IFC-67 u=%r vs IAPWS-97 u=%r at t=%r p=%r' % (u1, u2, t, p), case)
     # saturation line
-    for t in lin(0.01, 373.9, 500 // spec['f']):
+    for t in lin(0.01, 373.9, int(500 / spec['f'])):
         case = {'clause': 'cross saturation', 't': t}
         with ctx.guard(case) as g:
             p1 = T.sat(t)
@@ -125,7 +125,7 @@ def run_cross(ctx, spec):
 
 def run_identities(ctx, spec):
     T = R.t2thermo
-    n = 2000 // spec['f']
+    n = int(2000 / spec['f'])
     for i in range(n):
         t = ctx.rng.uniform(1.0, 349.0)
         ps = T.sat(t)
@@ -162,7 +162,7 @@ def run_identities(ctx, spec):
         if r[0] > 1e-4:
             ctx.violation('identity:steam', 'single-potential identity residual %.3g at t=%r p=%r' % (r[0], t, p), case)
     # inverse pair
-    for t in lin(0.01, 374.0, 500 // spec['f']) + [0.01, 374.15, 100.0, 350.0]:
+    for t in lin(0.01, 374.0, int(500 / spec['f'])) + [0.01, 374.15, 100.0, 350.0]:
         case = {'clause': 'tsat(sat(t))', 't': t}
         with ctx.guard(case) as g:
             p = T.sat(t)
@@ -179,7 +179,7 @@ def run_identities(ctx, spec):
         if abs(float(t2) - t) > 1e-5:
             ctx.violation('tsat-of-sat', 'tsat(sat(%r)) = %r' % (t, t2), case)
     # Clausius-Clapeyron across IFC-67's own saturation line
-    for t in lin(2.0, 348.0, 300 // spec['f']):
+    for t in lin(2.0, 348.0, int(300 / spec['f'])):
         case = {'clause': 'Clausius-Clapeyron IFC-67', 't': t}
         with ctx.guard(case) as g:
             h = 1e-3
@@ -220,7 +220,7 @@ def stated_supst(t, p, psat):
 
 def run_bounds(ctx, spec):
     T = R.t2thermo
-    n = 5000 // spec['f']
+    n = int(5000 / spec['f'])
     eps = 1e-9
     pts = []
     for _ in range(n):
@@ -273,7 +273,7 @@ def run_bounds(ctx, spec):
         if gotc and rc0 is not None and tuple(rc) != tuple(rc0):
             ctx.violation('bounds:cowat:changes-value', 'bounds flag changes the result: %r vs %r' % (rc, rc0), case)
     # sat / tsat
-    for t in lin(-1.0, 380.0, 400 // spec['f']) + [0.01 - 1e-9, 0.01 + 1e-9, TC1_C - 1e-9, TC1_C + 1e-9]:
+    for t in lin(-1.0, 380.0, int(400 / spec['f'])) + [0.01 - 1e-9, 0.01 + 1e-9, TC1_C - 1e-9, TC1_C + 1e-9]:
         case = {'clause': 'bounds sat', 't': t}
         with ctx.guard(case) as g:
             r = T.sat(t, bounds=True)
@@ -300,7 +300,7 @@ def run_bounds(ctx, spec):
 
 def run_classifiers(ctx, spec):
     T, W = R.t2thermo, R.IAPWS97
-    n = 10000 // spec['f']
+    n = int(10000 / spec['f'])
     for _ in range(n):
         r = ctx.rng.random()
         if r < 0.6:
@@ -334,7 +334,7 @@ def run_classifiers(ctx, spec):
 
 def run_ssf(ctx, spec):
     T = R.t2thermo
-    n = 200 // spec['f']
+    n = int(200 / spec['f'])
     for i in range(n):
         p1 = ctx.rng.uniform(0.1e6, 5e6)
         two = i % 2 == 1
